@@ -50,8 +50,23 @@ def sequence_equal_(
             doner = [False]
             ql: list[_T] = []
             qr: list[_T] = []
+            decided = [False]
+
+            def decide(result: bool) -> None:
+                # recorded before the downstream call: a source re-entered from
+                # inside observer.on_next(result) must not produce a second result
+                decided[0] = True
+                observer.on_next(result)
+                observer.on_completed()
+
+            def on_error(error: Exception) -> None:
+                if decided[0]:
+                    return
+                observer.on_error(error)
 
             def on_next1(x: _T) -> None:
+                if decided[0]:
+                    return
                 if len(qr) > 0:
                     v = qr.pop(0)
                     try:
@@ -61,26 +76,26 @@ def sequence_equal_(
                         return
 
                     if not equal:
-                        observer.on_next(False)
-                        observer.on_completed()
+                        decide(False)
 
                 elif doner[0]:
-                    observer.on_next(False)
-                    observer.on_completed()
+                    decide(False)
                 else:
                     ql.append(x)
 
             def on_completed1() -> None:
+                if decided[0]:
+                    return
                 donel[0] = True
                 if not ql:
                     if qr:
-                        observer.on_next(False)
-                        observer.on_completed()
+                        decide(False)
                     elif doner[0]:
-                        observer.on_next(True)
-                        observer.on_completed()
+                        decide(True)
 
             def on_next2(x: _T):
+                if decided[0]:
+                    return
                 if len(ql) > 0:
                     v = ql.pop(0)
                     try:
@@ -90,30 +105,28 @@ def sequence_equal_(
                         return
 
                     if not equal:
-                        observer.on_next(False)
-                        observer.on_completed()
+                        decide(False)
 
                 elif donel[0]:
-                    observer.on_next(False)
-                    observer.on_completed()
+                    decide(False)
                 else:
                     qr.append(x)
 
             def on_completed2():
+                if decided[0]:
+                    return
                 doner[0] = True
                 if not qr:
                     if len(ql) > 0:
-                        observer.on_next(False)
-                        observer.on_completed()
+                        decide(False)
                     elif donel[0]:
-                        observer.on_next(True)
-                        observer.on_completed()
+                        decide(True)
 
             subscription1 = first.subscribe(
-                on_next1, observer.on_error, on_completed1, scheduler=scheduler
+                on_next1, on_error, on_completed1, scheduler=scheduler
             )
             subscription2 = second_.subscribe(
-                on_next2, observer.on_error, on_completed2, scheduler=scheduler
+                on_next2, on_error, on_completed2, scheduler=scheduler
             )
             return CompositeDisposable(subscription1, subscription2)
 
